@@ -354,6 +354,75 @@ func kvfsShrink(c *Ctx, fmtName, whKind string) {
 	c.EmitR(op, "skip", "skip")
 }
 
+// kvfsXdev: recipe "kvfs-xdev <pack-tar|mirror> <size>" — a content-addressed warehouse whose shard directory for the ware
+// lives on another (tiny) filesystem: the commit's rename cannot work across them. Whatever the operation answers, the
+// final address holds the complete ware or nothing, and no staging file stays.
+func kvfsXdev(c *Ctx, what string, size string) {
+	op := fmt.Sprintf("kvfs-xdev %s %s", what, size)
+	c.Begin(op)
+	caseCounter++
+	base := filepath.Join(c.Work, fmt.Sprintf("kvxd%d", caseCounter))
+	defer rmrf(base)
+	src, whDir, srcWh := filepath.Join(base, "src"), filepath.Join(base, "wh"), filepath.Join(base, "srcwh")
+	os.MkdirAll(whDir, 0755)
+	os.MkdirAll(srcWh, 0755)
+	big := make([]byte, 400000)
+	for i := range big {
+		big[i] = byte(c.Rand())
+	}
+	fsx := Fileset{{Name: "", Kind: 'd', Perms: 0755, Sec: 1e9}, {Name: "big", Kind: 'f', Perms: 0644, Sec: 1e9, Content: big}}
+	if Materialize(fsx, src, nil) != nil {
+		return
+	}
+	ctx := context.Background()
+	pf := api.MustParseFilesetPackFilter(losslessPackStr)
+	id, err := tartrans.Pack(ctx, "tar", src, pf, whAddr("ca", srcWh), rio.Monitor{})
+	if err != nil {
+		return
+	}
+	final := storedWarePath("ca", whDir, id)
+	shardA := filepath.Dir(filepath.Dir(final))
+	os.MkdirAll(shardA, 0755)
+	if e := syscall.Mount("tmpfs", shardA, "tmpfs", 0, "size="+size); e != nil {
+		c.H("xdev:mount-failed")
+		return
+	}
+	defer syscall.Unmount(shardA, syscall.MNT_DETACH)
+	var rerr error
+	var pan string
+	switch what {
+	case "pack-tar":
+		_, rerr, pan = safeCall(func() (api.WareID, error) { return tartrans.Pack(ctx, "tar", src, pf, whAddr("ca", whDir), rio.Monitor{}) })
+	case "mirror":
+		_, rerr, pan = safeCall(func() (api.WareID, error) {
+			return tartrans.Mirror(ctx, id, whAddr("ca", whDir), []api.WarehouseLocation{whAddr("ca", srcWh)}, rio.Monitor{})
+		})
+	}
+	c.H(fmt.Sprintf("xdev:%s:err=%v", what, rerr != nil))
+	if pan != "" {
+		c.PropFail("kvfs-panic", "panic on the write path: "+pan, op)
+	}
+	if _, e := os.Lstat(final); e == nil {
+		sid, e2, pan2 := safeCall(func() (api.WareID, error) {
+			return tartrans.Scan(ctx, "tar", api.MustParseFilesetUnpackFilter(losslessUnpackStr), rio.Placement_Direct, api.WarehouseLocation("file://"+final), rio.Monitor{})
+		})
+		if e2 != nil || pan2 != "" || sid != id {
+			c.PropFail("partial-ware-served", fmt.Sprintf("after %s into a warehouse whose shard directory is on another (full) filesystem (answer: %v) the final address holds a ware that does not scan to its id", what, rerr), op)
+		} else if rerr != nil {
+			c.PropFail("error-but-committed", "the operation returned an error but the final address exists", op)
+		}
+	} else if rerr == nil {
+		c.PropFail("ok-but-not-served", "the operation returned success but the target does not hold the ware", op)
+	}
+	filepath.Walk(whDir, func(p string, info os.FileInfo, e error) error {
+		if e == nil && !info.IsDir() && strings.Contains(info.Name(), ".tmp.upload") {
+			c.PropFail("staging-left", "staging file left behind: "+strings.TrimPrefix(p, whDir), op)
+		}
+		return nil
+	})
+	c.EmitR(op, "skip", "skip")
+}
+
 func verifhookQuiet(f func()) { f() }
 
 // kvfsFullDisk: a real ENOSPC — the warehouse is a tiny tmpfs.
@@ -423,6 +492,9 @@ func kvfsEngine(c *Ctx) {
 					fmt.Sscan(f[4], &n)
 				}
 				kvfsFullDiskSized(c, f[1], f[2], size, n)
+			} else if strings.HasPrefix(op, "kvfs-xdev ") {
+				f := strings.Fields(op)
+				kvfsXdev(c, f[1], f[2])
 			} else if strings.HasPrefix(op, "kvfs-shrink ") {
 				f := strings.Fields(op)
 				kvfsShrink(c, f[1], f[2])
@@ -465,6 +537,10 @@ func kvfsEngine(c *Ctx) {
 				kvfsExec(c, fmt.Sprintf("kvfs %s %s crash:%d %s", what, wh, i, tok))
 			}
 		}
+	}
+	for _, w := range []string{"pack-tar", "mirror"} {
+		kvfsXdev(c, w, "64k")  // too small for the ware
+		kvfsXdev(c, w, "8m")   // large enough
 	}
 	for _, fm := range []string{"tar", "zip"} {
 		for _, k := range []string{"ca", "file"} {
